@@ -211,6 +211,10 @@ class Parameter(Accessible):
                 else:
                     raise ProgrammingError(
                         'datatype MUST be derived from class DataType!')
+            if any(k not in self.propertyDict for k in kwds):
+                # datatype properties (min, max, ...) are given: they must not be
+                # applied to the datatype object of the caller, it may be used elsewhere
+                datatype = datatype.copy()
             self.datatype = datatype
             if 'default' in kwds:
                 self.default = datatype(kwds['default'])
